@@ -7,8 +7,8 @@ import (
 	"github.com/go-logr/logr"
 	"go.minekube.com/gate/pkg/edition/java/lite/config"
 	"go.minekube.com/gate/pkg/edition/java/proto/packet"
-	"golang.org/x/sync/singleflight"
 	zz "go.minekube.com/gate/pkg/internal/zzverif"
+	"golang.org/x/sync/singleflight"
 )
 
 // zzClock32 is a clock in whole seconds that the harness advances between operations (constant within
@@ -58,6 +58,31 @@ func VerifHarness_CacheTTL() {
 	} else {
 		zz.Assert(loads == 1 && second == first, "a status younger than the TTL was fetched again instead of being served from the cache")
 		zz.Reach("cached")
+	}
+}
+
+// The same question with a backend that is slow to answer, for fixed fetch durations around the TTL
+// (shorter, exactly the TTL, longer, much longer) and an arbitrary later instant: an entry stored
+// after a slow fetch still expires - at the latest one TTL after it was stored.
+func VerifHarness_CacheTTLAfterSlowFetch() {
+	clock := &zzClock32{ns: 1_000_000}
+	c := zzCache32(clock)
+	const ttlSec = 5
+	key := pingKey{backendAddr: "b:1", protocol: 767, routeGeneration: 3}
+	fd := []int64{1, 4, 5, 6, 3600}[zz.Choose(5)]
+	loads := 0
+	first := c.load(key, ttlSec*time.Second, func() *pingResult { loads++; clock.ns += fd; return zzRes("one") })
+	zz.Assert(loads == 1 && first.res.Status == "one", "the first request did not fetch the status from the backend")
+	dt := zz.Int64()
+	zz.Assume(dt >= 0 && dt < 1<<30) // seconds after the entry was stored
+	clock.ns += dt
+	second := c.load(key, ttlSec*time.Second, func() *pingResult { loads++; return zzRes("two") })
+	if dt >= ttlSec {
+		zz.Assert(loads == 2 && second.res.Status == "two", "a status stored after a slow fetch was still served more than the TTL later")
+		zz.Reach("expired-after-slow-fetch")
+	} else if dt < ttlSec-fd {
+		zz.Assert(loads == 1 && second == first, "a status younger than the TTL was fetched again instead of being served from the cache")
+		zz.Reach("cached-after-slow-fetch")
 	}
 }
 
